@@ -247,6 +247,8 @@ def run(ctx):
                        "expected": {"status": ref[0], "stdout": ref[1][:400]}}
             kind = "not-executable" if f in stuck else ("effects-or-result-differ" if o[0] == ref[0] else "ends-differently")
             rclass = "dyn-of-other-trait" if recv.startswith("dyn_") else ("overlapping-inherent-impls" if recv.startswith("ovl_") else "plain")
+            if "@" in recv:
+                rclass += "@" + recv.split("@", 1)[1]   # placement in library packages
             ctx.report({"oracle": "same-effect", "kind": kind, "form": f, "receiver_class": rclass},
                        f"{recv}, call in {pos} position: the {f} form prints/returns {o[1][:80]!r} ({o[0]}), the other forms {ref[1][:80]!r} ({ref[0]})", payload)
         for f, v in forms.items():
